@@ -132,6 +132,9 @@ func (e *Engine) VerifyAction(m *Monitor, lit *ssa.Function) (r *FnRun) {
 		cp.ModAll = true
 		shell = &cp
 	}
+	// the explicit panics in actions and in the via-function guard the protocol ("retire called twice",
+	// "transitioned to non-idle when already done", ...): they must be unreachable
+	shell.NoExplicitPanic = true
 	r = e.NewRun(via, shell)
 	r.action = lit
 	r.monitor = m
@@ -468,7 +471,7 @@ func (e *Engine) DisciplineUnit(m *Monitor) *FnRun {
 func (fr *Frame) havocAllHeap() {
 	r := fr.R
 	var keep map[string]Term
-	if r.monitor != nil && fr.st.held[r.monitor.Name] {
+	if r.monitor != nil && fr.st.held[r.monitor.Name] && !fr.noKeep {
 		keep = map[string]Term{}
 		for _, comp := range r.protectedComps(fr, r.monitor) {
 			if sort, ok := r.Heap.sorts[comp]; ok {
